@@ -132,6 +132,7 @@ def k3_values(run, rng, n):
         m = len(labels)
         data = np.arange(2 * m, dtype=float).reshape(2, m) * (1 if rng.random() < 0.5 else -1)
         chunks = G.random_composition(rng, m, 4)
+        ds_problem = None
         arr = da.from_array(data, chunks=((1, 1), chunks))
         with warnings.catch_warnings():
             warnings.simplefilter("ignore")
@@ -157,10 +158,32 @@ def k3_values(run, rng, n):
             ok = (ok and a3.shape == arr.shape and a3.dtype == arr.dtype and a3.chunks[0] == arr.chunks[0] and np.array_equal(a3.compute(), data)
                   and x3.chunks[1] == a3.chunks[1] and x3.chunks[0] == a3.chunks[0] and np.array_equal(x3.compute().values, data) and x3.attrs == {"k": 1}
                   and d3["v"].chunks[1] == a3.chunks[1] and np.array_equal(d3["v"].compute().values, data))
+            # Datasets whose chunked variables carry `dim` at DIFFERENT positions (and an in-memory variable): every variable is
+            # rechunked along `dim` exactly like the array flavour, its other dimension keeps its chunks, values are untouched
+            ychunks = tuple(G.random_composition(rng, m, 3))
+            dsm = xr.Dataset({"a": (("y", "x"), da.from_array(np.arange(m * m, dtype=float).reshape(m, m), chunks=(ychunks, chunks))),
+                              "b": (("x", "y"), da.from_array(-np.arange(m * m, dtype=float).reshape(m, m), chunks=(chunks, ychunks))),
+                              "c": (("x",), np.arange(m))}, coords={"lab": ("x", labels), "plab": ("x", plabels)})
+            before = dsm.copy(deep=True).compute()
+            for flavour, outds, ref in (("blockwise", fx.rechunk_for_blockwise(dsm, "x", dsm.lab), out.chunks[1]),
+                                        ("cohorts", fx.rechunk_for_cohorts(dsm, "x", dsm.plab, force_new_chunk_at=force, chunksize=csize,
+                                                                           ignore_old_chunks=ign), a3.chunks[1])):
+                for vname in ("a", "b"):
+                    v = outds[vname]
+                    ax, oth = v.get_axis_num("x"), v.get_axis_num("y")
+                    if not (v.dims == dsm[vname].dims and v.chunks[ax] == ref and v.chunks[oth] == ychunks
+                            and np.array_equal(v.compute().values, before[vname].values)):
+                        ok = False
+                        ds_problem = {"flavour": flavour, "variable": vname, "dims": list(v.dims), "chunks": [list(c) for c in v.chunks],
+                                      "expected_chunks_along_x": list(ref), "chunks_of_y_before": list(ychunks)}
+                if outds["c"].chunks is not None or not np.array_equal(outds["c"].values, before["c"].values) or dsm["a"].chunks[1] != tuple(chunks):
+                    ok = False
+                    ds_problem = {"flavour": flavour, "variable": "c (in memory) or the input Dataset itself changed"}
         run.count(f"k3|{runs}|{chunks}", True)
         if not ok:
             run.violation({"property": "C17", "kind": "rechunk helper changed data / metadata or blockwise on its result is not exact",
-                           "runs": list(runs), "chunks": list(chunks), "new_chunks": [list(c) for c in out.chunks]}, tag="k3")
+                           "runs": list(runs), "chunks": list(chunks), "new_chunks": [list(c) for c in out.chunks],
+                           "dataset_problem": ds_problem, "cohorts_call": {"period": period, "chunksize": csize, "ignore_old_chunks": ign}}, tag="k3")
 
 
 def run(run: C.Run):
